@@ -79,7 +79,7 @@ func main() {
 		}
 
 		if len(t) > 0 {
-			n := t[0]
+			n := t[0].STRewrite(node.SymTbl{})
 			node.ByteCode(n, cr)
 			if v, err := virtM.Run(true); err == nil {
 				fmt.Println(v)
